@@ -116,6 +116,15 @@ func randomCodeFrom(a *Asm, r *Rng, n int, targets []common.Address) []byte {
 		case k < 62: // log
 			a.PushU(uint64(r.Intn(3))).PushU(uint64(r.Intn(64))).PushU(0).Op(0xa1)
 		case k < 78 && len(targets) > 0: // a call of some kind to another contract / precompile / nobody
+			if r.Chance(15) {
+				// one of the oldest precompiles (an account that does not exist in the pre-state), first with too little gas for it and
+				// then with enough: what a CALL to an account that does not exist costs (before EIP-158: 25000 for creating it)
+				// depends on whether the earlier, failed call left it behind
+				pt := common.BytesToAddress([]byte{byte(1 + r.Intn(4))})
+				for _, g := range []uint64{[]uint64{0, 10, 100}[r.Intn(3)], 100000} {
+					a.PushU(0).PushU(0).PushU(uint64(r.Intn(40))).PushU(0).PushU(0).PushBytes(pt[:]).PushU(g).Op(opCALL, opPOP)
+				}
+			}
 			t := targets[r.Intn(len(targets))]
 			kind := []byte{opCALL, opCALL, opCALLCODE, opDELEGATECALL, opSTATICCALL}[r.Intn(5)]
 			a.PushU(uint64(r.Intn(64))).PushU(uint64(r.Intn(64))).PushU(uint64(r.Intn(70))).PushU(uint64(r.Intn(64)))
